@@ -5,6 +5,7 @@ CONSTANTS
   MaxM = 3
   MaxTotal = 5
   ZeroPairs = "split"
+  WithTwins = FALSE
   ExportAt = "matrix"
 CONSTRAINT Export
 INVARIANT ImplCover
